@@ -115,6 +115,13 @@ CLAIMED["C11"] = dict(
            "Borderline for this family (syntax trees compared with an algebraic equality test); no path enumeration, no solver, nothing is executed."),
     note=TB + "sympy (tooling venv) is the equality test; atan(tan(u)) = u is applied on the principal branch (assumption). Not decided: rounding near bounds (TINY nudges), numerical monotonicity, half-line continuity at non-unit scale.")
 
+CLAIMED["C19"] = dict(
+    engine="E5+E1",
+    technique="static analysis: clone agreement of the parameter formulas in constructor vs setFrequencies under renaming, size-guard dominance for argument indexing, constraint attachment on every created Parameter, no-early-exit rule on the loops filling the probability vector",
+    level=("Narrow structural claim: per coding the two implementations of 'probabilities -> parameters' compute the same formulas; the setter's argument is indexed only under a dimension test; every simplex "
+           "parameter carries the allowNull-selected unit-interval constraint; the notification fills every probability entry and gives the last one the remaining mass."),
+    note=TB + "Not decided: normalisation / inversion / injectivity as values, the binary coding's bit arithmetic, OrderedSimplex ordering, consistency of literal parameters in the dimension constructor.")
+
 NOT_APPLICABLE = {
     "C06": ("every clause is a floating-point identity of the JAMA QL/QR iterations (A.V = V.D within k.eps, ordering, trace/determinant); correctness lies in rotation coefficients and "
             "deflation tests that no sound static argument in reach bounds, and no structural necessary condition separable from run-time invariants exists (DESIGN.md section 6)"),
